@@ -6,6 +6,7 @@
 import Masscanned.Spec.Wire
 import Masscanned.Spec.L4
 import Masscanned.Spec.Icmp
+import Masscanned.Spec.Stun
 import Masscanned.Model.SipHash
 namespace Masscanned.Spec
 open Masscanned
@@ -85,13 +86,24 @@ def judgeC03 (cfg : Cfg) (f : Bytes) (r : Option Bytes) : Verdict :=
   match r with
   | none => pass false
   | some r =>
-    if mirrors cfg f r 0 then pass true
-    else
-      let pl := appPayload f
-      let k := stunChangePorts 4096 (pl.drop 20)
-      let rp := appPayload r
-      if k > 0 ∧ u8 rp 0 = 1 ∧ u8 rp 1 = 1 ∧ mirrors cfg f r k then pass true
+    let pl := appPayload f
+    let rp := appPayload r
+    let stunReply : Bool := u8 rp 0 = 1 && u8 rp 1 = 1
+    -- a well-formed Binding Request answered by a Binding Success Response: the port rule is exact
+    -- (no other responder's reply to a payload starting `00 01` starts with `01 01`)
+    match (if stunReply then parseStun pl else none) with
+    | some m =>
+      if m.cls = 0 ∧ m.method = 1 then
+        (if mirrors cfg f r (changePortCount m) then pass true
+         else failv "STUN change-port rule: the response does not come from destination port + number of change-port requests")
+      else if mirrors cfg f r 0 then pass true
       else failv "reply is not the mirror image of the request"
+    | none =>
+      if mirrors cfg f r 0 then pass true
+      else
+        let k := stunChangePorts 4096 (pl.drop 20)
+        if k > 0 ∧ stunReply ∧ mirrors cfg f r k then pass true
+        else failv "reply is not the mirror image of the request"
 
 def judgeC04 (r : Option Bytes) : Verdict :=
   match r with
